@@ -17,6 +17,7 @@ def _(self, idx):
 
 @assumed("cascade.executor.comms:ReliableSender.maybe_retry")
 def _(self):
+    logs("maybe_retry")     # ghost marker (call presence in the waiting loop of recv_events)
     may_raise(ValueError, when=True)
     modifies("at", "remaining", "events")
 
@@ -90,6 +91,9 @@ def _(self):
                                                              isinstance(result()[i], DatasetPublished) or isinstance(result()[i], DatasetTransmitPayload))),
             tag="returns-a-non-empty-batch-of-events", top=True)
     invariant(0, forall(int, lambda i: implies(0 <= i and i < len(events), isinstance(events[i], DatasetPublished) or isinstance(events[i], DatasetTransmitPayload))))
+    # C06: "if it can not be delivered the sender raises after a bounded number of retries": while the controller WAITS it keeps driving the retry
+    # pass - every turn of the waiting loop ends with maybe_retry (a lost command is resent, or reported, also when no event ever arrives)
+    invariant(0, events_len() == old(events_len()) or ev_name(event(events_len() - 1)) == "maybe_retry", tag="every-turn-of-the-wait-drives-the-retry-pass")
     invariant(1, forall(int, lambda i: implies(0 <= i and i < len(events), isinstance(events[i], DatasetPublished) or isinstance(events[i], DatasetTransmitPayload))))
     invariant(1, forall(int, lambda i: implies(0 <= i and i < loop1_index and is_failure_notice(loop1_iter[i]), shutdown_reason is not None)))
     invariant(2, True)
